@@ -145,6 +145,19 @@ def calc_script(ctx, q):
                     L.append("state 0")
                     plan.append((len(L), "pure", len(L) - 3))
                     L.append("close 0")
+                # a read/write handle: the read pointer (moved on its own with SFM_READ seeks) is away from the write pointer when CALC runs
+                if not raw and sb not in ("IMA_ADPCM",) and mj != "PAF":
+                    for pos in (0, rng.range(1, nfr - 1)):
+                        L.append("open 0 %d x 0 0 0" % sid)
+                        L.append("seek 0 %d 16" % pos)
+                        L.append("state 0")
+                        L.append("cmd 0 %s" % rng.choice(["0x1040", "0x1041"]))
+                        L.append("cmd 0 %s" % rng.choice(["0x1042", "0x1043"]))
+                        L.append("state 0")
+                        plan.append((len(L), "pure", len(L) - 3))
+                        L.append("seek 0 0 17")
+                        plan.append((len(L), "rdwrpos", pos))
+                        L.append("close 0")
             sid = (sid + 1) % 30
     return "\n".join(L) + "\n", plan
 
@@ -251,12 +264,17 @@ def run(ctx):
                 if got != refmax and "calcall:wrong_value" not in seen:
                     seen.add("calcall:wrong_value")
                     ctx.violation("calcall:wrong_value", "SFC_CALC_(NORM_)MAX_ALL_CHANNELS = %r, independent scan %r" % (got, refmax), sdrive.section_prefix(cs, ln)[-3000:])
+        elif kind == "rdwrpos":
+            if d.get("ret") != str(ref) and "calc:rdwr_read_position_moved" not in seen:
+                seen.add("calc:rdwr_read_position_moved")
+                ctx.violation("calc:rdwr_read_position_moved", "read/write handle, read pointer at frame %d: after SFC_CALC_* a zero-offset SEEK_CUR | SFM_READ reports %s" % (ref, d.get("ret")), sdrive.section_prefix(cs, ln)[-3000:])
         elif kind == "pure":
             if cl[ln][1].get("dig") != cl[ref][1].get("dig") and "calc:state_changed" not in seen:
                 seen.add("calc:state_changed")
                 ctx.violation("calc:state_changed", "SFC_CALC_* changed the read position / normalisation setting: %s" % cl[ln][2][:200], sdrive.section_prefix(cs, ln)[-3000:])
     ctx.tie("calc_oracle", "oracle", nc, nc, "SFC_CALC_SIGNAL_MAX / NORM / MAX_ALL_CHANNELS / NORM_MAX_ALL_CHANNELS on PCM, u-law, A-law, float, double, IMA ADPCM, PAF24 files, channels 1..3, "
-            "read positions 0 / middle / end, both norm settings: value == independent sf_read_double scan; state digest (read position, norm_double, ...) unchanged")
+            "read positions 0 / middle / end, both norm settings: value == independent sf_read_double scan; state digest (read position, norm_double, ...) unchanged; "
+            "the same on SFM_RDWR handles whose read pointer sits away from the write pointer")
     ctx.trusted += ["hand-written model Peak.v (the extracted model recomputes every stored PEAK of the run)",
                     "PEAK values in files are float32: the signals use magnitudes k/4096 so that equality is exact",
                     "the PEAK chunk (de)serialisers of wavlike.c / aiff.c / caf.c are exercised by the re-open only"]
